@@ -114,15 +114,37 @@ def find_state(current_state_machine, current_state, force_full_lookup=False):
         the parent States object too we get the full JSONPath string for
         the query then use simple string splits to find the path of that.
         """
-        path = get_full_jsonpath(current_state_machine, "$.." + current_state)
-        if path:
-            states_path = path[0].rpartition("['States']")[0]
-            if states_path:
-                branch = apply_jsonpath(current_state_machine, states_path)
-                current_state_machine = branch["States"]
-                state = current_state_machine.get(current_state)
-        else:
-            path = []
+        found = []  # The "States" objects that hold a state of that name
+
+        def search(states):
+            """
+            Visit the states of this "States" object and, through the
+            Branches of its Parallel states and the Iterator/ItemProcessor of
+            its Map states, those of the nested state machines. Only states
+            are looked at, so a member of some payload that happens to have
+            the same name is not taken for a state, and a state name may
+            contain any character.
+            """
+            if not isinstance(states, dict):
+                return
+            if current_state in states:
+                found.append(states)
+            for nested in states.values():
+                if not isinstance(nested, dict):
+                    continue
+                branches = nested.get("Branches")
+                for branch in branches if isinstance(branches, list) else []:
+                    if isinstance(branch, dict):
+                        search(branch.get("States"))
+                for field in ("Iterator", "ItemProcessor"):
+                    if isinstance(nested.get(field), dict):
+                        search(nested[field].get("States"))
+
+        search(current_state_machine)
+        path = found
+        if found:
+            current_state_machine = found[0]
+            state = current_state_machine.get(current_state)
     else:
         path = ["$['" + current_state + "']"]
 
